@@ -138,6 +138,16 @@ class Dual:
         "less": lambda a, b: Dual.lift(a) < b,
         "less_equal": lambda a, b: Dual.lift(a) <= b,
         "equal": lambda a, b: Dual.lift(a) == b,
+        # piecewise selections: the branch that is taken carries its own derivative (at a tie the
+        # one-sided derivative of the FIRST argument, like numpy's own value)
+        "minimum": lambda a, b: Dual.lift(a) if Dual.lift(a).re <= Dual.lift(b).re else Dual.lift(b),
+        "maximum": lambda a, b: Dual.lift(a) if Dual.lift(a).re >= Dual.lift(b).re else Dual.lift(b),
+        "fmin": lambda a, b: Dual.lift(a) if Dual.lift(a).re <= Dual.lift(b).re else Dual.lift(b),
+        "fmax": lambda a, b: Dual.lift(a) if Dual.lift(a).re >= Dual.lift(b).re else Dual.lift(b),
+        "sign": lambda a: Dual(math.copysign(1.0, Dual.lift(a).re) if Dual.lift(a).re != 0 else 0.0, 0.0),
+        "not_equal": lambda a, b: Dual.lift(a).re != Dual.lift(b).re,
+        "isfinite": lambda a: math.isfinite(Dual.lift(a).re),
+        "isnan": lambda a: math.isnan(Dual.lift(a).re),
     }
 
     def __array_ufunc__(self, ufunc, method, *inputs, **kwargs):
